@@ -28,3 +28,46 @@ package cli
 //@   call llm.CallLLM update llmVerdict = result0.Verdict
 //@   ensures [C13.exit] result0 == 0 ==> result1 == nil && (!llmCalled || (llmOK && llmVerdict == "MATCH"))
 //@   ensures [C13.exit] result0 == 0 || result0 == 1
+
+// ---- C16: nothing in the target escapes analysis
+//@ func isTestFile
+//@   ensures [C16.test] result == hasSuffix(baseOf(path), "_test.go")
+
+//@ pred isDirEntry(d fs.DirEntry) = purecall("invoke:io/fs.DirEntry.IsDir", d)
+//@ pred entryName(d fs.DirEntry) = purecall("invoke:io/fs.DirEntry.Name", d)
+//@ pred skippedDir(name string) = name == "vendor" || (len(name) > 1 && hasPrefix(name, "."))
+
+// The directory walk: every non-test .go file is collected; only vendor and hidden directories below the root are pruned.
+//@ func CollectFiles$1
+//@   uses walk
+//@   modifies files
+//@   ensures [C16.walk] err != nil ==> result == nil && *files == old(*files)
+//@   ensures [C16.walk] err == nil && !isDirEntry(d) && hasSuffix(path, ".go") && !hasSuffix(baseOf(path), "_test.go") ==> result == nil && len(*files) == old(len(*files)) + 1 && (*files)[old(len(*files))] == path
+//@   ensures [C16.walk] err == nil && !isDirEntry(d) && !(hasSuffix(path, ".go") && !hasSuffix(baseOf(path), "_test.go")) ==> result == nil && *files == old(*files)
+//@   ensures [C16.walk] err == nil && isDirEntry(d) ==> *files == old(*files) && ((result != nil) == (skippedDir(entryName(d)) && path != *target)) && (result != nil ==> result == filepath.SkipDir)
+
+// Every failure of a file is reported in its slot; on success there is one entry per fingerprinted function.
+//@ func ProcessFile
+//@   noframe
+//@   ghost failed bool
+//@   init failed = false
+//@   call Abs update failed = failed || result1 != nil
+//@   call Stat update failed = failed || result1 != nil
+//@   call ReadFile update failed = failed || result1 != nil
+//@   call diff.FingerprintSourceAdvanced update failed = failed || result1 != nil
+//@   ensures [C16.err] failed ==> result.ErrorMessage != ""
+//@   ensures [C16.err] result.File == filename
+
+// Strict mode turns any per-file error into a failing run.
+//@ func RunCheckLogic
+//@   noframe
+//@   ghost sawErrors bool
+//@   init sawErrors = false
+//@   call ProcessFilesParallel update sawErrors = result1
+//@   ensures [C16.strict] strictMode && sawErrors ==> result != nil
+
+// Oversized sources are rejected, never truncated silently.
+//@ func (RealFileSystem).ReadFile
+//@   noframe
+//@   ensures [C16.size] result1 == nil ==> len(result0) <= models.MaxSourceFileSize
+//@ axiom [walk] filepath.SkipDir != nil
